@@ -1,6 +1,8 @@
 package main
 
 import (
+	"sync"
+	"encoding/json"
 	"fmt"
 	"math/rand"
 	"net"
@@ -355,6 +357,15 @@ func genC02(o *Out, rng *rand.Rand, tier string) {
 		d, cls := editedMsg6(rng, codes, 1+rng.Intn(2))
 		emit(d, cls)
 	}
+	// option values at the limit of the 16-bit length field
+	for _, L := range []int{65535, 65534, 65280, 32768} {
+		m := &dhcpv6.Message{MessageType: dhcpv6.MessageTypeReply}
+		copy(m.TransactionID[:], randBytes(rng, 3))
+		m.AddOption(dhcpv6.OptElapsedTime(0))
+		m.AddOption(&dhcpv6.OptionGeneric{OptionCode: dhcpv6.OptionCode(pick(rng, 200, 43, 65000)), OptionData: randBytes(rng, L)})
+		m.AddOption(&dhcpv6.OptionGeneric{OptionCode: dhcpv6.OptionRapidCommit})
+		emit(m, "length-limit")
+	}
 	for depth := 0; depth <= 8; depth++ {
 		for k := 0; k < 6; k++ {
 			emit(randMsg6(rng, 2, depth), "relay-chain")
@@ -407,16 +418,71 @@ func decOpt6(code int, in []byte) map[string]any {
 	return out
 }
 
+// concurrentDecodes decodes the inputs in eight goroutines at once and reports (through emit) every result that
+// differs from the one obtained alone; with a correct decoder it reports one sample line so that the class shows
+// in the evidence.
+func concurrentDecodes(inputs [][]byte, dec func([]byte) any, emit func(in []byte, out any)) {
+	if len(inputs) == 0 {
+		return
+	}
+	alone := make([]string, len(inputs))
+	for i, in := range inputs {
+		b, _ := json.Marshal(dec(in))
+		alone[i] = string(b)
+	}
+	type diff struct {
+		i   int
+		out any
+	}
+	var mu sync.Mutex
+	var diffs []diff
+	var wg sync.WaitGroup
+	for g := 0; g < 8; g++ {
+		wg.Add(1)
+		go func(g int) {
+			defer wg.Done()
+			for round := 0; round < 3; round++ {
+				for k := range inputs {
+					i := (k*7 + g*131 + round) % len(inputs)
+					out := dec(inputs[i])
+					if b, _ := json.Marshal(out); string(b) != alone[i] {
+						mu.Lock()
+						if len(diffs) < 20 {
+							diffs = append(diffs, diff{i, out})
+						}
+						mu.Unlock()
+					}
+				}
+			}
+		}(g)
+	}
+	wg.Wait()
+	for _, d := range diffs {
+		emit(inputs[d.i], d.out)
+	}
+	emit(inputs[0], dec(inputs[0]))
+}
+
 // genC05: byte strings -> FromBytes / ParseOption.
 func genC05(o *Out, rng *rand.Rand, tier string) {
 	maxLen, nvalid, nrand, maxPay := 5, 40, 1500, 36
 	if tier == "thorough" {
 		maxLen, nvalid, nrand, maxPay = 6, 400, 25000, 60
 	}
+	var accepted [][]byte
 	emit := func(in []byte, cls string) {
-		out, _ := dec6(in)
+		out, d := dec6(in)
 		o.Emit(map[string]any{"op": "Dec6", "in": B(in), "out": out}, cls, in, len(in) >= 4)
+		if d != nil && len(accepted) < 4000 && len(in) > 12 {
+			accepted = append(accepted, append([]byte(nil), in...))
+		}
 	}
+	defer func() {
+		// decoders running side by side (a server handles datagrams concurrently) read the same values
+		concurrentDecodes(accepted, func(in []byte) any { out, _ := dec6(in); return out }, func(in []byte, out any) {
+			o.Emit(map[string]any{"op": "Dec6", "in": B(in), "out": out}, "concurrent-decoders", append([]byte("cc"), in...), true)
+		})
+	}()
 	// (a) every TLV area over a small alphabet after each header kind, and truncated headers
 	hdrs := [][]byte{{1, 0xaa, 0xbb, 0xcc}, append([]byte{12, 3}, make([]byte, 32)...), append([]byte{13, 0}, randBytes(rng, 32)...)}
 	alpha := []byte{0, 1, 2, 3, 8, 255}
@@ -487,6 +553,31 @@ func genC05(o *Out, rng *rand.Rand, tier string) {
 			for _, v := range variants {
 				msg := append([]byte{3, 1, 2, 3, byte(c >> 8), byte(c), byte(len(v) >> 8), byte(len(v))}, v...)
 				emit(msg, "valid-payload-cut-or-extended")
+			}
+		}
+	}
+	// (b'') every type with long payloads: sizes around 128, 256 and beyond (limits a decoder may be tempted to impose)
+	for _, c := range v6Known {
+		for _, L := range []int{126, 127, 128, 129, 130, 131, 132, 255, 256, 257, 1000} {
+			p := randOpt6(rng, c, 1).ToBytes()
+			if len(p) > L {
+				p = p[:L]
+			}
+			fill := byte(rng.Intn(256))
+			for len(p) < L {
+				if L%2 == 0 {
+					p = append(p, fill)
+				} else {
+					p = append(p, byte(rng.Intn(256)))
+				}
+			}
+			msg := append([]byte{5, 1, 2, 3, byte(c >> 8), byte(c), byte(L >> 8), byte(L)}, p...)
+			emit(msg, "long-payload")
+			if c == 1 || c == 2 { // DUIDs of every kind at these sizes
+				for _, t := range []byte{1, 2, 3, 4, 0, 9} {
+					q := append([]byte{0, t}, p[2:]...)
+					emit(append([]byte{5, 1, 2, 3, byte(c >> 8), byte(c), byte(L >> 8), byte(L)}, q...), "long-payload")
+				}
 			}
 		}
 	}
